@@ -57,6 +57,9 @@ type Reply struct {
 	Hold      *Gate         // block until opened before replying
 	Duplicate bool          // send the reply twice
 	ForeignID bool          // reply carries an unknown command id
+	// Impostor: before this task's own reply, another executor (other agent and executor id) sends a success reply that names
+	// this command and this task id. It is not the target's answer and must not complete or alter the command.
+	Impostor bool
 	Then      func()        // called after the reply has been sent
 }
 
@@ -677,6 +680,13 @@ func (m *FakeMaster) execMessage(cmd *Command) {
 		}
 	default:
 		return
+	}
+	if rep.Impostor && cmd.Name == "MesosCommand_Transition" {
+		fake := map[string]interface{}{"name": cmd.Name, "id": cmd.Id, "environmentId": cmd.EnvId, "error": "", "_messageType": "MesosCommandResponse",
+			"taskId": cmd.TaskID, "state": cmd.Destination}
+		fb, _ := json.Marshal(fake)
+		m.logf("impostor-reply", m.tick(), fake)
+		m.SendMessage("agent-of-somebody-else", "executor-of-somebody-else", fb)
 	}
 	if rep.Hold != nil {
 		rep.Hold.Wait()
